@@ -20,6 +20,7 @@ else
   export RL4CO_REPO=/repo
 fi
 echo "== demo on patched tree"; for f in "$D"/demo*.py; do PYTHONPATH="$RL4CO_REPO" /venv/bin/python "$f" 2>&1 | tail -2; echo "demo rc=$?"; done
+export VERIF_EVIDENCE_DIR="$PWD/build/seeded_evidence"; mkdir -p "$VERIF_EVIDENCE_DIR"
 for P in $PROP; do
   echo "== ./check $P --tier $TIER (patched)"
   ./check "$P" --tier "$TIER" > "build/seeded_$P.log" 2>&1; rc=$?
